@@ -28,7 +28,33 @@ FOCUS = {
  "C19": "stats collection: world stats functions, archetype.UpdateStats / table stats, ecs/stats package, cache/observer/lock counters, memory computations",
  "C20": "*_debug.go vs *_nodebug.go files, mask64.go vs mask256.go (ark_tiny), checks that exist in only one build, query_debug_gen.go / query_nodebug_gen.go",
 }
+FORCED = {
+ "C01": "ecs/exchange_gen.go (ExchangeN.Add/Remove/Exchange and their batch variants, ONE arity) or ecs/column.go",
+ "C02": "ecs/pool.go (entityPool / intPool) or the entity-index handling in ecs/storage.go createEntity/createEntities",
+ "C03": "ecs/mask64.go or ecs/mask256.go (set operations used for filter matching), ecs/query.go (UnsafeQuery), ecs/filter.go",
+ "C04": "ecs/relation.go, ecs/archetype.go (GetTable / getTableSlowPath / AddTable / RemoveTarget), ecs/table.go relation bookkeeping",
+ "C05": "ecs/cache.go, or the places in ecs/storage.go / ecs/archetype.go that call cache.addTable / cache.removeTable",
+ "C06": "ecs/batch.go, ecs/exchange_gen.go batch variants of ONE arity, ecs/maps_gen.go batch variants of ONE arity",
+ "C07": "ecs/lock.go, ecs/query.go (UnsafeQuery Next/Close), ecs/world.go lock()/unlock()/checkLocked callers",
+ "C08": "ecs/observers_gen.go (ONE arity), ecs/observer.go, ecs/events.go (AddObserver / mask bookkeeping per event type), ecs/event.go",
+ "C09": "ecs/observers_gen.go (callback wrappers of ONE arity), ecs/world_internal.go (order of events and changes)",
+ "C10": "ecs/checks.go, ecs/unsafe.go, ecs/map.go, ecs/exchange_gen.go (argument / alive / relation checks of ONE arity)",
+ "C11": "ecs/column.go, ecs/util.go, ecs/table.go (zeroing, copying with or without write barriers, growth)",
+ "C12": "any file, but the source of nondeterminism must be new: select/goroutines, time, pointer values (unsafe.Pointer as key or in comparisons), sort.Slice instability, map iteration in a place not used before",
+ "C13": "ecs/filter.go (UnsafeFilter), ecs/query.go, ecs/query_gen.go construction path, ecs/storage.go pooled slices used while creating queries",
+ "C14": "ecs/exchange_gen.go, ecs/observers_gen.go, or an arity >= 9 of ecs/maps_gen.go (ONE method of ONE arity)",
+ "C15": "ecs/table.go (Shrink / CanShrink / adjustCapacity), ecs/pool.go and entity index (shrinking of the entity list), ecs/column.go",
+ "C16": "a Reset/reset method not used before: ecs/graph.go, ecs/archetype.go Reset, ecs/lock.go, ecs/pool.go intPool/bitPool, ecs/storage.go slices pools, registry",
+ "C17": "ecs/entity.go (binary codec / AppendBinary), ecs/unsafe.go (DumpEntities / LoadEntities) with a mechanism not in the list",
+ "C18": "ecs/registry.go, ecs/id_map.go, ecs/mask64.go, ecs/resources.go (Add/Remove/Get/Has), ecs/world.go generic helpers (ComponentID/ResourceID/TypeID)",
+ "C19": "the stats package and every UpdateStats / stats-producing function except table.UpdateStats and the free-table loop of archetype.UpdateStats",
+ "C20": "ecs/mask64.go (ark_tiny) vs ecs/mask256.go, any *_debug.go / *_nodebug.go pair except Query6.Get, checks_debug.go",
+}
 props = [json.loads(l) for l in open("/verif/properties.jsonl")]
+def focus_text(pid):
+    if int(wave) >= 6:
+        return ("For this round your change MUST be located in: " + FORCED[pid] + ". Only if you have tried at least three candidate changes there and each was caught by the existing tests may you go elsewhere (say so in meta.json), and then stay away from the functions listed below.")
+    return ("For this round, look first at these rarely touched places: " + FOCUS[pid] + ". (If nothing there can break the property while the existing tests still pass, look elsewhere, but stay away from the functions listed below.)")
 used = []
 for d in sorted(glob.glob("/verif/seeded/S*")):
     m = json.load(open(d + "/meta.json"))
@@ -68,7 +94,7 @@ When done, leave the worktree with your library change applied (uncommitted) and
 
 Hints: read ecs/*.go to find the mechanism that makes the property hold. The docs are under docs/content. Do not spend time on anything else. Be efficient: aim to finish within about 30-40 minutes.
 
-IMPORTANT: many previous attempts exist (listed below, for this and for other properties). Yours must be DIFFERENT from all of them: a different mechanism in a different function, with a different trigger. For this round, look first at these rarely touched places: {FOCUS[pid]}. (If nothing there can break the property while the existing tests still pass, look elsewhere, but stay away from the functions listed below.) Prefer silent corruption that needs a rare but legal combination of conditions.
+IMPORTANT: many previous attempts exist (listed below, for this and for other properties). Yours must be DIFFERENT from all of them: a different mechanism in a different function, with a different trigger. {focus_text(pid)} Prefer silent corruption that needs a rare but legal combination of conditions.
 
 Already used (do not repeat):
 """ + "\n".join(used) + "\n"
